@@ -195,6 +195,9 @@ def main():
                     if ffinal != f[0]:
                         pr.append('edits through ONE handle give %r, the same edits through fresh handles give %r' % (final, unhex(ffinal)))
         classes.add((kind, tuple(k for k, _ in ops)[:3], p['path'][:2] if isinstance(p['path'], str) else '', p.get('authority') is None, p.get('scheme') is None))
+        strip = lambda s: [x for i, x in enumerate(s.split('\t')) if x not in ('0', '1', '-') or i == 0]
+        if known and not pr and strip(io) != strip(mo):
+            pr.append('deviates inside the recorded class %s, but NOT in the recorded way (the model carries the recorded behaviour)' % known)
         if known and not pr:
             known_seen[known] = known_seen.get(known, 0) + 1
             if known in known_listed:
